@@ -87,6 +87,17 @@ class Seams:
     def save_data_time_step(self):
         self._sim.on_save(self, super().save_data_time_step)
 
+    def after_nonlinear_convergence(self):
+        super().after_nonlinear_convergence()
+        if getattr(self._sim, "limiter", False):
+            es = self.equation_system
+            x = es.get_variable_values(time_step_index=0)
+            x = np.round(x, 6)  # the limited solution is the accepted one: written to both storages
+            es.set_variable_values(x, time_step_index=0, iterate_index=0)
+            self._sim.converged_iterate = x.copy()
+            self._sim.iterates[-1] = x.copy()  # iterate 0 was rewritten in place, not shifted
+            self._sim.tr.probe("limiter_rewrites_accepted_solution")
+
     def before_nonlinear_loop(self):
         super().before_nonlinear_loop()
         if getattr(self._sim, "predictor", False):
@@ -217,15 +228,18 @@ class DriverSim:
             self.res_tol = ch.choice([np.inf, np.inf, 1e-6])
             # a model may start each solve from a predictor (extrapolated initial guess) instead of the last accepted values
             self.predictor = ch.flag(1, 4)
+            # ... or post-process every accepted solution (a limiter): what counts as "the last accepted time-step values"
+            # is what the model stored, by whatever route
+            self.limiter = ch.flag(1, 4)
             # environment (swarm): enabled fault kinds, rate, horizon, aiming
-            kinds = ["diverge", "stall", "nan", "blowup"]
+            kinds = ["diverge", "stall", "nan", "blowup", "late_diverge"]
             self.kinds = [k for k in kinds if ch.flag(2, 3)] or [ch.choice(kinds)]
             self.p_fail = ch.choice([0, 1, 3, 6])  # /10
             self.horizon = ch.choice([MAX_ATTEMPTS, 4, 10, 25])
             self.aim = ch.flag()
         self.tr.emit("config", {"family": self.family, "cell": self.cell_size, "fracs": self.fracs, "ts_depth": self.ts_depth, "it_depth": self.it_depth,
                                 "tm": {k: (list(v) if isinstance(v, (list, tuple)) else v) for k, v in self.tm_kw.items()},
-                                "max_iter": self.max_iter, "div_tol": float(self.div_tol), "res_tol": float(self.res_tol), "predictor": self.predictor, "kinds": self.kinds, "p_fail": self.p_fail,
+                                "max_iter": self.max_iter, "div_tol": float(self.div_tol), "res_tol": float(self.res_tol), "predictor": self.predictor, "limiter": self.limiter, "kinds": self.kinds, "p_fail": self.p_fail,
                                 "horizon": self.horizon, "export": self.export})
 
     def build(self, folder="viz", restart_options=None, tm=None):
@@ -296,7 +310,11 @@ class DriverSim:
                 p = min(9, self.p_fail * 2) if (self.aim and interesting) else self.p_fail
                 if ch.flag(p, 10):
                     kind = ch.choice(self.kinds)
-                    j = 1 if ch.flag(1, 3) else ch.rng(1, max(1, self.max_iter))
+                    # the Newton loop runs while num_iteration <= max_iterations, i.e. up to max_iterations + 1 iterations:
+                    # the last of them is a fault point of its own
+                    j = 1 if ch.flag(1, 3) else (self.max_iter + 1 if ch.flag(1, 5) else ch.rng(1, max(1, self.max_iter)))
+                    if j == self.max_iter + 1:
+                        self.tr.probe("fault_at_last_permitted_newton_iteration")
                     self.fault = (kind, j)
         self.ctx = {"landing": landing, "final": final_step, "first": first}
         self.about_before = tm._is_about_to_hit_schedule
@@ -335,6 +353,10 @@ class DriverSim:
         if f and f[0] == "stall" and j >= f[1]:
             self._fired("stall", j)
             return False, False
+        if f and f[0] == "late_diverge":
+            # no convergence all the way, divergence flagged in the very last iteration the loop permits (max_iterations + 1)
+            self._fired("late_diverge", j)
+            return (False, True) if j >= self.max_iter + 1 else (False, False)
         if conv:
             self.converged_iterate = it0
         return conv, div
@@ -482,7 +504,7 @@ class DriverSim:
 # --------------------------------------------------------------------------------------
 PROBES = ["fault_at_newton_iteration_1", "failure_right_after_failure", "failure_on_schedule_landing_step", "failure_on_first_step",
           "failure_on_final_step", "depth3_window_filled", "budget_exhausted_raise", "fail_at_dt_min_raise", "real_divergence_or_nonconvergence",
-          "step_back_S5", "run_reached_final_time", "attempt_cap_reached", "config_rejected", "full_history_ge_3_steps", "predictor_initial_guess"]
+          "step_back_S5", "run_reached_final_time", "attempt_cap_reached", "config_rejected", "full_history_ge_3_steps", "predictor_initial_guess", "limiter_rewrites_accepted_solution", "fault_at_last_permitted_newton_iteration"]
 
 
 def make_run(owner: str, families=("flow",)):
